@@ -1,7 +1,16 @@
 use std::collections::VecDeque;
+#[cfg(not(tiny_http_verif))]
 use std::sync::atomic::{AtomicUsize, Ordering};
+#[cfg(not(tiny_http_verif))]
 use std::sync::{Arc, Condvar, Mutex};
+#[cfg(not(tiny_http_verif))]
 use std::thread;
+#[cfg(tiny_http_verif)]
+use tiny_http_verif_rt::sync::atomic::{AtomicUsize, Ordering};
+#[cfg(tiny_http_verif)]
+use tiny_http_verif_rt::sync::{Arc, Condvar, Mutex};
+#[cfg(tiny_http_verif)]
+use tiny_http_verif_rt::thread;
 use std::time::Duration;
 
 /// Manages a collection of threads.
